@@ -271,4 +271,111 @@ def byRepo (sort : List RFile → List RFile) (multi : Bool) (stats : Stats) (fi
     List (List RFile × Stats) :=
   if !multi || files.isEmpty then [(sort files, stats)] else attachStats sort stats (groups files)
 
+/-! ## search/aggregate.go: the flush of the collector under concurrency (lock granularity)
+
+`newFlushCollectSender` is used by two goroutines: the search loop (`Send` for every shard result, then the final flush)
+and the `FlushWallTime` timer (`stopCollectingAndFlush(TimerExpired)`). Both take `mu` and — as the code is written —
+keep it while the aggregate (or a direct result) is handed to the downstream sender, which may block for a long time (a
+slow client).  The model below runs the two goroutines under an arbitrary scheduler, one atomic step at a time:
+
+    idle → want (called, waiting for mu) → locked (has mu) → sending (inside the downstream Send) → sent → idle (returned)
+
+`unlockEarly = true` is the variant that releases `mu` before the downstream Send of the aggregate (not the code as
+written; used to show that the statement really depends on the lock being held). Results are counted, not identified. -/
+
+inductive Tid where
+  | main | timer
+  deriving DecidableEq, Repr
+
+inductive Pc where
+  | idle | want | locked | sending | sent
+  deriving DecidableEq, Repr
+
+inductive MOp where
+  | send | final
+  deriving DecidableEq, Repr
+
+/-- what can be observed from outside: a downstream Send carrying `n` results begins / ends, a `Send` of the search loop
+    returns, the final flush returns (after which StreamSearch returns and the stream is closed) -/
+inductive Obs where
+  | dBegin (n : Nat)
+  | dEnd (n : Nat)
+  | sendRet
+  | finalRet
+  deriving DecidableEq, Repr
+
+structure Sys where
+  holder : Option Tid
+  pcM : Pc
+  pcT : Pc
+  curM : MOp
+  opsLeft : Nat          -- results the search loop has still to send; then the final flush
+  finalDone : Bool
+  timerArmed : Bool
+  collecting : Bool
+  agg : Nat              -- results held by the collectSender
+  flyM : Nat             -- results inside the downstream Send of the search loop's goroutine
+  flyT : Nat             -- … of the timer goroutine
+  processed : Nat        -- results that have gone through the critical section (ghost)
+  delivered : Nat        -- results whose downstream Send has returned
+  returned : Nat         -- results whose `Send` has returned to the search loop
+  trace : List Obs
+  deriving Repr
+
+def Sys.init (n : Nat) : Sys :=
+  { holder := none, pcM := .idle, pcT := .idle, curM := .send, opsLeft := n, finalDone := false, timerArmed := true,
+    collecting := true, agg := 0, flyM := 0, flyT := 0, processed := 0, delivered := 0, returned := 0, trace := [] }
+
+def stepMain (u : Bool) (s : Sys) : Sys :=
+  match s.pcM with
+  | .idle =>
+    if s.finalDone then s
+    else if s.opsLeft > 0 then { s with curM := .send, opsLeft := s.opsLeft - 1, pcM := .want }
+    else { s with curM := .final, pcM := .want }
+  | .want => if s.holder = none then { s with holder := some .main, pcM := .locked } else s
+  | .locked =>
+    match s.curM with
+    | .send =>
+      if s.collecting then { s with agg := s.agg + 1, processed := s.processed + 1, pcM := .sent }
+      else { s with flyM := 1, processed := s.processed + 1, pcM := .sending, trace := s.trace ++ [.dBegin 1] }
+    | .final =>
+      if s.collecting then
+        if s.agg > 0 then
+          { s with collecting := false, timerArmed := false, flyM := s.agg, agg := 0,
+                   holder := if u then none else s.holder, pcM := .sending, trace := s.trace ++ [.dBegin s.agg] }
+        else { s with collecting := false, timerArmed := false, holder := if u then none else s.holder, pcM := .sent }
+      else { s with pcM := .sent }
+  | .sending =>
+    { s with delivered := s.delivered + s.flyM, trace := s.trace ++ [.dEnd s.flyM], flyM := 0, pcM := .sent }
+  | .sent =>
+    match s.curM with
+    | .send =>
+      { s with holder := if s.holder = some .main then none else s.holder, pcM := .idle,
+               returned := s.returned + 1, trace := s.trace ++ [.sendRet] }
+    | .final =>
+      { s with holder := if s.holder = some .main then none else s.holder, pcM := .idle,
+               finalDone := true, trace := s.trace ++ [.finalRet] }
+
+def stepTimer (u : Bool) (s : Sys) : Sys :=
+  match s.pcT with
+  | .idle => if s.timerArmed then { s with timerArmed := false, pcT := .want } else s
+  | .want => if s.holder = none then { s with holder := some .timer, pcT := .locked } else s
+  | .locked =>
+    if s.collecting then
+      if s.agg > 0 then
+        { s with collecting := false, timerArmed := false, flyT := s.agg, agg := 0,
+                 holder := if u then none else s.holder, pcT := .sending, trace := s.trace ++ [.dBegin s.agg] }
+      else { s with collecting := false, timerArmed := false, holder := if u then none else s.holder, pcT := .sent }
+    else { s with pcT := .sent }
+  | .sending =>
+    { s with delivered := s.delivered + s.flyT, trace := s.trace ++ [.dEnd s.flyT], flyT := 0, pcT := .sent }
+  | .sent => { s with holder := if s.holder = some .timer then none else s.holder, pcT := .idle }
+
+def step (u : Bool) (s : Sys) : Tid → Sys
+  | .main => stepMain u s
+  | .timer => stepTimer u s
+
+/-- run a schedule: which goroutine gets the next atomic step (a step that is not enabled changes nothing) -/
+def runSched (u : Bool) (s : Sys) (sched : List Tid) : Sys := sched.foldl (step u) s
+
 end ZoektModel.C25
